@@ -77,6 +77,7 @@ type probe struct {
 	events  []pEvent
 	holds   map[string]chan struct{} // "req/rule" -> release channel
 	reached map[string]chan struct{}
+	closed  map[string]bool
 	actions map[string]func()
 	inside  int
 	maxIn   int
@@ -115,14 +116,13 @@ func (p *probe) Hold(req int64, rule string) {
 		rel, ok = p.holds[k]
 	}
 	rch := p.reached[k]
+	if ok && rch != nil && !p.closed[k] { // several rules of one request may arrive here at the same time (concurrent models)
+		p.closed[k] = true
+		close(rch)
+	}
 	p.mu.Unlock()
 	if !ok {
 		return
-	}
-	select {
-	case <-rch:
-	default:
-		close(rch)
 	}
 	select {
 	case <-rel:
@@ -161,6 +161,7 @@ type pStep struct {
 	Text   string     `json:"text"` // raw text instead of Rules (C10)
 	Model  int        `json:"model"`
 	Probe  []string   `json:"probe"`  // names for IsExist / salience / desc queries
+	Async  bool       `json:"async"`  // run this management operation concurrently with the following steps
 	Inside *pStep     `json:"inside"` // a management op performed from inside rule HoldAt of this request (P.Do)
 	Extra  []string   `json:"extra"`  // extra keys injected with the request (C06)
 	Flag   bool       `json:"flag"`   // Req.Flag: rules of kind "cond" return only when it is set
@@ -434,6 +435,11 @@ func mgmt(gp *engine.GenginePool, st *pStep) (err error, pan string) {
 		err = gp.UpdatePooledRulesIncremental(text)
 	case "remove":
 		err = gp.RemoveRules(st.Names)
+	case "churn": // removals of names that do not exist, back to back for WaitMs milliseconds: the write locks are taken again and again
+		until := time.Now().Add(time.Duration(st.WaitMs) * time.Millisecond)
+		for time.Now().Before(until) {
+			_ = gp.RemoveRules(st.Names)
+		}
 	case "clear":
 		gp.ClearPoolRules()
 	case "setmodel":
@@ -444,7 +450,8 @@ func mgmt(gp *engine.GenginePool, st *pStep) (err error, pan string) {
 
 func runPoolScenario(sc *pScenario) pObs {
 	obs := pObs{ID: sc.ID, Events: []pEvent{}, Reqs: []pReqObs{}, Ops: []pOpObs{}, Snaps: []pSnap{}, Stuck: []int64{}}
-	pr := &probe{holds: map[string]chan struct{}{}, reached: map[string]chan struct{}{}, actions: map[string]func(){}}
+	var asyncOps sync.WaitGroup
+	pr := &probe{holds: map[string]chan struct{}{}, reached: map[string]chan struct{}{}, closed: map[string]bool{}, actions: map[string]func(){}}
 	apis := map[string]interface{}{"P": pr}
 	gp, err := engine.NewGenginePool(sc.Min, sc.Max, sc.Model, pRulesText(sc.Rules), apis)
 	if err != nil {
@@ -585,13 +592,23 @@ func runPoolScenario(sc *pScenario) pObs {
 					}
 				}
 			}
-		case "update", "incr", "remove", "clear", "setmodel":
-			oo := pOpObs{Step: i, Op: st.Op, BeginSeq: seqNow()}
-			e, p := mgmt(gp, st)
-			oo.Err, oo.Panic, oo.EndSeq = e != nil, p, seqNow()
-			lmu.Lock()
-			obs.Ops = append(obs.Ops, oo)
-			lmu.Unlock()
+		case "update", "incr", "remove", "clear", "setmodel", "churn":
+			do := func(i int, st *pStep) {
+				oo := pOpObs{Step: i, Op: st.Op, BeginSeq: seqNow()}
+				e, p := mgmt(gp, st)
+				oo.Err, oo.Panic, oo.EndSeq = e != nil, p, seqNow()
+				lmu.Lock()
+				obs.Ops = append(obs.Ops, oo)
+				lmu.Unlock()
+			}
+			if st.Async { // a management call running concurrently with the following steps (it holds the pool's write locks meanwhile)
+				asyncOps.Add(1)
+				stc := *st
+				go func(i int) { defer asyncOps.Done(); do(i, &stc) }(i)
+				time.Sleep(2 * time.Millisecond)
+			} else {
+				do(i, st)
+			}
 		case "snapshot":
 			quiet(15 + st.WaitMs) // let the asynchronous puts land
 			obs.Snaps = append(obs.Snaps, snapshot(gp, i, st.Probe))
@@ -599,6 +616,7 @@ func runPoolScenario(sc *pScenario) pObs {
 			quiet(st.WaitMs)
 		}
 	}
+	asyncOps.Wait()
 	// release everything still held, wait for stragglers
 	pr.mu.Lock()
 	for k, ch := range pr.holds {
